@@ -74,14 +74,14 @@ CASE_TIMEOUT = 900
 CHUNK = 1
 EXHAUSTIVE = {"quick": False, "thorough": False}
 FLOORS = {
-    "quick": {"distinct_nontrivial": 70,
-              "mon": {"solve_contract": 350, "build_calls": 800, "setBackground_contract": 350,
-                      "basis_pairs_deltaF": 120, "basis_derived_judged": 2000,
-                      "homogeneous": 40, "unit_scaling": 40, "eom_fd": 40,
-                      "fd_series_points": 30, "source_exact": 20, "operator_exact": 60},
-              "cls": {"basis:T": 8, "basis:v": 8, "basis:field": 8, "basis:combined": 8,
-                      "conv:T": 2, "conv:v": 2, "conv:field": 2, "conv:combined": 2,
-                      "phys": 20}},
+    "quick": {"distinct_nontrivial": 100,
+              "mon": {"solve_contract": 500, "build_calls": 1200, "setBackground_contract": 500,
+                      "basis_pairs_deltaF": 170, "basis_derived_judged": 5000,
+                      "homogeneous": 56, "unit_scaling": 56, "eom_fd": 56,
+                      "fd_series_points": 42, "source_exact": 28, "operator_exact": 84},
+              "cls": {"basis:T": 12, "basis:v": 12, "basis:field": 12, "basis:combined": 12,
+                      "conv:T": 3, "conv:v": 3, "conv:field": 3, "conv:combined": 3,
+                      "phys": 28}},
     "thorough": {"distinct_nontrivial": 700,
                  "mon": {"solve_contract": 3000, "build_calls": 7000,
                          "setBackground_contract": 3000, "basis_pairs_deltaF": 1100,
@@ -98,29 +98,34 @@ BASES = ("Cardinal", "Chebyshev")
 BG_TYPES = ("T", "v", "field", "combined")
 
 # ---------------------------------------------------------------- tolerances (calibration)
+# Calibration runs: quick seeds 0-4 and thorough seeds 0-1 on a scratch copy of /repo with the
+# one-line F2 repair (the unchanged tree differs only in the finite-difference source).
 # Backward error of LU with partial pivoting is ~ eps in practice, <= c*n*eps in the usual
-# model.  Observed on the unchanged tree (seeds 0-4 both tiers): max 2.1e-16, i.e.
-# <= 3e-3 * n * eps.  K_BE*n*eps with K_BE = 8 is the textbook model with its usual constant.
+# model.  Observed max of eta/(n*eps) = 0.018.  K_BE = 8 is the textbook model's constant.
 K_BE = 8.0
 # Forward agreement of two solves of the same problem: <= K_FWD * eps * kappa_1.  Observed
-# max of err/(eps*kappa_1) = 0.2 (M = 10, N = 3), typically 1e-3; 32 leaves > 100x.
+# max of err/(eps*kappa_1) = 0.11 (median 5e-3); 32 leaves ~300x.  The unit rescaling uses
+# powers of two, for which the observed difference is exactly 0 in > 99 % of the cases.
 K_FWD = 32.0
 KAPPA_MAX = 1e8      # above this the collision operator is not "non-singular" in float64
 # Derived quantities: tolerance = K_DER * (measured sensitivity to a relative perturbation of
-# deltaF) * (deltaF tolerance); sensitivity from structured + random perturbation draws.
+# deltaF) * (deltaF tolerance); sensitivity from structured + random perturbation draws on
+# the real getDeltas.  Observed max of |difference|/tolerance = 8e-4 (all seven quantities).
 K_DER = 8.0
 E_PROBE = 1e-6
 # Rounding of (derivative matrix) @ (constant profile): observed max|D 1| <= 1.3*eps*M^2 for
 # M <= 40 (3.5 at M = 160).  A homogeneous source is that noise where a varying background
-# with relative amplitude a has a*O(1): ratio <= K_HOM*eps*M^2/a.  Observed max of
-# ratio*a/(eps*M^2) = 0.9 -> K_HOM = 64.
+# with relative amplitude a has a*O(1): ratio <= K_HOM*eps*M^2/a (reference = the same
+# configuration with all three profiles varying).  Observed max of ratio*a/(eps*M^2) = 0.14
+# -> K_HOM = 64 leaves > 400x; deltaF-level ratio observed <= 4.5e-13.
 K_HOM = 64.0
 # Finite differences: second-order stencils.  Observed on the tree with F2 repaired:
-# order 1.95-2.05, finest-grid difference <= 6e-3 (source) / 4e-3 (Liouville).
+# order 1.92-2.25, finest-grid difference <= 6.5e-3 (M=80) / 1.7e-3 (M=160).
 FD_MIN_ORDER = 0.66   # DESIGN: "below 0.4x from M=20 to M=80"
 FD_MAX_FINEST = 5e-2  # DESIGN: "below 5e-2 at M=80"
 # Exactness on polynomial data: rounding of the spectral derivative relative to the
 # derivative itself is eps*M^2/a (see K_HOM); row-wise rounding of operator @ coefficients.
+# Observed max of difference/tolerance: source 8e-3, Liouville 7e-2, collision 3e-3.
 K_SRC = 64.0
 K_OP = 64.0
 
@@ -378,7 +383,7 @@ def _pick_sizes(rng, tier):
 def generate(tier, seed):
     rng = np.random.default_rng(12000 + seed)
     cases = []
-    nb = 12 if tier == "quick" else 100        # per background type
+    nb = 16 if tier == "quick" else 100        # per background type
     for bgtype in BG_TYPES:
         for _ in range(nb):
             N, P, M = _pick_sizes(rng, tier)
@@ -387,7 +392,7 @@ def generate(tier, seed):
                                                                  1, 2, 3, 4, 5, 6, 7, 8]))),
                           "hom_bases": [str(rng.choice(BASES)), str(rng.choice(BASES))],
                           "s": int(rng.integers(1 << 30))})
-    nc = 3 if tier == "quick" else 20
+    nc = 4 if tier == "quick" else 20
     Ms = [20, 40, 80] if tier == "quick" else [20, 40, 80, 160]
     for bgtype in BG_TYPES:
         for _ in range(nc):
@@ -399,7 +404,7 @@ def generate(tier, seed):
                                 "k": float(rng.uniform(1.0, 4.0)), "ph": float(rng.uniform(0, 6.28)),
                                 "w": [1.0, float(rng.uniform(-0.5, 0.5))]},
                           "s": int(rng.integers(1 << 30))})
-    nph = 24 if tier == "quick" else 300
+    nph = 32 if tier == "quick" else 300
     for i in range(nph):
         N = int(rng.choice([3, 5, 7]))
         P = int(rng.choice([1, 2]))
@@ -932,7 +937,8 @@ def _case_conv(case):
         if fails(dS):
             bad, aligned, detail = _attribute_source_failure(cfg, g, Ms[-1])
             obs["attribution"] = detail
-            if "v" in bad and aligned is not None and aligned <= FD_MAX_FINEST:
+            blind_to_v = "v" in detail and detail["v"]["fd_norm"] <= 1e-6 * detail["v"]["sp_norm"]
+            if "v" in bad and blind_to_v and aligned is not None and aligned <= FD_MAX_FINEST:
                 mech = "fd-velocity-gradient-taken-from-temperature-profile"
                 why = ("single-term probes at M=%d: terms %s disagree (v-only: |S_fd| = %.2e vs "
                        "|S_spectral| = %.2e); the disagreement vanishes (%.2e) when the "
